@@ -212,7 +212,23 @@ def Seq_rows(I, site, ncall):
     return Lst([Tup([cnt])], open=True)
 
 
+_PROG = None
+
+
+def set_prog(prog) -> None:
+    global _PROG
+    _PROG = prog
+
+
+def R():
+    """attribute names by role (see roles.py) for the program under analysis"""
+    from .roles import roles
+    from .model import Program
+    return roles(_PROG if _PROG is not None else Program())
+
+
 def make_session(database_set=None, schema_set=None):
+    r = R()
     duck = Obj("duck", kind="duck")
     conn = Obj(
         "conn", cls=("conn", "FakeSnowflakeConnection"),
@@ -220,13 +236,13 @@ def make_session(database_set=None, schema_set=None):
         schema=Sym("CUR_SCHEMA", typ="str", truthy=True, origin=("upper", ("input", "CUR_SCHEMA")), distinct=True),
         database_set=Const(True) if database_set is None else Const(database_set),
         schema_set=Const(True) if schema_set is None else Const(schema_set),
-        db_path=Const(None), nop_regexes=Const(None), _paramstyle=Const("pyformat"),
-        variables=Obj("vars", cls=("variables", "Variables"), _variables=Dct()), _duck_conn=duck, _is_closed=Const(False),
+        db_path=Const(None), nop_regexes=Const(None),
+        variables=Obj("vars", cls=("variables", "Variables"), **{r.variables: Dct()}),
+        **{r.paramstyle: Const("pyformat"), r.conn_duck: duck},
     )
-    cur = Obj("cur", cls=CURSOR, _conn=conn, _duck_conn=duck, _use_dict_result=Const(False),
-              _last_sql=Sym("old_last_sql"), _last_params=Sym("old_last_params"), _sqlstate=Const(None),
-              _arraysize=Const(1), _arrow_table=Sym("old_table"), _arrow_table_fetch_index=Sym("old_index"),
-              _rowcount=Sym("old_rowcount"))
+    cur = Obj("cur", cls=CURSOR, **{
+        r.conn: conn, r.duck: duck, r.dict_flag: Const(False), r.last_sql: Sym("old_last_sql"), r.last_params: Sym("old_last_params"),
+        r.sqlstate: Const(None), r.arraysize: Const(1), r.table: Sym("old_table"), r.index: Sym("old_index"), r.rowcount: Sym("old_rowcount")})
     return duck, conn, cur
 
 
@@ -318,11 +334,11 @@ def run_execute(prog: Program, kind: str, mode: str | None, params=None, paramst
 
     def run(I: Interp):
         duck, conn, cur = make_session()
-        conn.attrs["_paramstyle"] = Const(paramstyle)
+        conn.attrs[R().paramstyle] = Const(paramstyle)
         conn.attrs["nop_regexes"] = nop_regexes if nop_regexes is not None else Const(None)
         if variables:
-            conn.attrs["variables"].attrs["_variables"] = Dct(variables)
-        cur.attrs["_sqlstate"] = Const(old_sqlstate)
+            conn.attrs["variables"].attrs[R().variables] = Dct(variables)
+        cur.attrs[R().sqlstate] = Const(old_sqlstate)
         sessions.append((conn, cur))
         return I.call(I.getattr(cur, "execute"), [Sym("COMMAND", typ="str", truthy=True), params if params is not None else Const(None)], {}, None)
 
